@@ -129,7 +129,9 @@ pub trait Property {
     }
     /// Seconds a single run may take before the watchdog calls it a hang.
     fn hang_limit_s() -> u64 {
-        20
+        // (the heaviest ordinary runs - a directory of 65 536 files, 70 000 invocations - take
+        // one or two seconds on an idle machine: a wide margin for a loaded one)
+        60
     }
     fn rule() -> &'static str;
     fn components() -> Value;
